@@ -53,6 +53,16 @@ pub fn compare_tx(curve: &Curve, want: &Tx, o: &TxObs, signer_key: Option<&U256>
     }
     None
 }
+/// CLI-layer sample of a transaction case: the document, the reference verdict, the reference digest and the reference
+/// signed transaction for the ganache account #0 (so that the CLI layer needs no JSON-to-transaction parser of its own)
+pub fn emit_tx(ctx: &Ctx, sweep: &str, index: u64, stride: u64, shape: &str, text: &str, want: Option<&Tx>, class: &str, curve: &Curve) {
+    if stride == 0 || text.len() > 200_000 { return; }
+    ctx.emit_cli(sweep, index, stride, || {
+        let key = U256::from_hex("4f3edf983ac636a65a842ce7c78d9aa706d3b113bce9c46f30d7d21715b23b1d");
+        let (hash, signed) = match want { Some(t) => { let h = t.signing_hash(); let (r, s, odd, _) = curve.sign_rfc6979(&key, &h); (Some(explore::hex(&h)), Some(explore::hex(&t.signed_payload(odd, &r.to_nat(), &s.to_nat())))) } None => (None, None) };
+        serde_json::json!({"kind": "transaction", "shape": shape, "json": text, "class": class, "unsigned_hash": hash, "signed_by_ganache0": signed, "needs_allow": want.map_or(false, |t| t.kind == Kind::Legacy && t.chain_id.is_none())})
+    });
+}
 pub fn tx_replay(sweep: &str, index: u64, text: &str, want: Option<&Tx>, key: Option<&U256>) -> Value {
     serde_json::json!({"sweep": sweep, "index": index, "entry": "serde_json::from_str::<Transaction> + signing_message + encode", "transaction_json": if text.len() > 4000 { format!("{}… ({} bytes)", &text[..4000], text.len()) } else { text.to_string() },
         "reference_unsigned_payload": want.map(|w| { let p = w.unsigned_payload(); explore::hex(&p[..p.len().min(400)]) }), "secret": key.map(|k| k.to_hex64())})
@@ -60,6 +70,7 @@ pub fn tx_replay(sweep: &str, index: u64, text: &str, want: Option<&Tx>, key: Op
 /// the usual verdict plumbing for a transaction the reference accepts
 pub fn expect_accept(ctx: &Ctx, p: &str, sweep: &str, index: u64, shape: &str, text: &str, want: &Tx, key: &U256, curve: &Curve) -> Option<TxObs> {
     let replay = || tx_replay(sweep, index, text, Some(want), Some(key));
+    emit_tx(ctx, sweep, index, if p == "C06" { 3 } else { 0 }, shape, text, Some(want), "must-accept", curve);
     match observe_tx(text, &Signer::Key(key)) {
         Err(pn) => { ctx.eval(format!("{shape}:panic")); ctx.panic_violation(format!("{p}:tx:{shape}:panic@{}", explore::panic_site(&pn)), format!("panics: {pn}"), replay()); None }
         Ok(Err(e)) => { ctx.eval(format!("{shape}:rejected")); ctx.violation(format!("{p}:tx:{shape}:rejected"), format!("a well-formed transaction is rejected: {e}"), replay()); None }
